@@ -1,0 +1,10 @@
+//! `cfg(libp2p_verif)` verification hook (property C46), compiled as a child module of
+//! `behaviour`: a public wrapper that only *calls* the private `multiaddr_matches_peer_id`.
+
+use libp2p_core::Multiaddr;
+use libp2p_identity::PeerId;
+
+/// `multiaddr_matches_peer_id`
+pub fn multiaddr_matches_peer_id(addr: &Multiaddr, peer_id: &PeerId) -> bool {
+    super::multiaddr_matches_peer_id(addr, peer_id)
+}
